@@ -7,6 +7,7 @@ import (
 	"time"
 
 	"github.com/bmeg/grip/config"
+	"github.com/bmeg/grip/gdbi"
 	"github.com/bmeg/grip/gripper"
 	"github.com/bmeg/grip/gripql"
 	"github.com/bmeg/grip/log"
@@ -60,7 +61,10 @@ func (server *GripServer) buildSchemas(ctx context.Context) {
 				if isSchema(name) {
 					continue
 				}
-				if _, ok := server.schemas[name]; ok {
+				server.lock.RLock()
+				_, ok := server.schemas[name]
+				server.lock.RUnlock()
+				if ok {
 					log.WithFields(log.Fields{"graph": name}).Debug("skipping build; cached schema found")
 					continue
 				}
@@ -72,7 +76,9 @@ func (server *GripServer) buildSchemas(ctx context.Context) {
 					if err != nil {
 						log.WithFields(log.Fields{"graph": name, "error": err}).Error("failed to store graph schema")
 					}
+					server.lock.Lock()
 					server.schemas[name] = schema
+					server.lock.Unlock()
 				} else {
 					log.WithFields(log.Fields{"graph": name, "error": err}).Error("failed to build graph schema")
 				}
@@ -107,7 +113,16 @@ func (server *GripServer) updateGraphMap() {
 	for k, v := range server.conf.Graphs {
 		o[k] = v
 	}
+	// work on a snapshot of the drivers; the new map and any driver started here
+	// are published together under the lock at the end
+	server.lock.RLock()
+	drivers := make(map[string]gdbi.GraphDB, len(server.dbs))
 	for n, dbs := range server.dbs {
+		drivers[n] = dbs
+	}
+	server.lock.RUnlock()
+	started := map[string]gdbi.GraphDB{}
+	for n, dbs := range drivers {
 		for _, g := range dbs.ListGraphs() {
 			o[g] = n
 			if strings.HasSuffix(g, "__mapping__") {
@@ -119,7 +134,7 @@ func (server *GripServer) updateGraphMap() {
 					gdb, err := StartDriver(config.DriverConfig{Gripper: &gripper.Config{Graph: graphName, Mapping: mapping}}, server.sources)
 					if err == nil {
 						driverName := fmt.Sprintf("%s__driver__", graphName)
-						server.dbs[driverName] = gdb
+						started[driverName] = gdb
 						o[graphName] = driverName
 					} else {
 						log.Errorf("Failed to start gripper: %s", graphName)
@@ -130,7 +145,12 @@ func (server *GripServer) updateGraphMap() {
 			}
 		}
 	}
+	server.lock.Lock()
+	for n, gdb := range started {
+		server.dbs[n] = gdb
+	}
 	server.graphMap = o
+	server.lock.Unlock()
 }
 
 func (server *GripServer) addFullGraph(ctx context.Context, graphName string, schema *gripql.Graph) error {
